@@ -293,7 +293,10 @@ class PDFXRefStream(PDFBaseXRef):
         if len(index_array) % 2 != 0:
             raise PDFSyntaxError("Invalid index number")
         self.ranges.extend(cast(Iterator[Tuple[int, int]], choplist(2, index_array)))
-        (self.fl1, self.fl2, self.fl3) = stream["W"]
+        try:
+            (self.fl1, self.fl2, self.fl3) = stream["W"]
+        except (KeyError, TypeError, ValueError):
+            raise PDFNoValidXRef("Invalid /W in xref stream")
         assert self.fl1 is not None and self.fl2 is not None and self.fl3 is not None
         self.data = stream.get_data()
         self.entlen = self.fl1 + self.fl2 + self.fl3
